@@ -298,10 +298,16 @@ class Walker:
                 else:
                     ce = ("call", None, t.get("fnty"), (self.op_expr(t["fnop"], env, fenv),) + args, (fn.id, bi))
                 inl = self.inline_candidate(t)
+                clo_map = None
+                if inl is None:
+                    # a closure built in this body and invoked directly (`let f = |x| ..; f(a)`): see through the call
+                    clo_map = self.local_closure_call(t, args)
+                    if clo_map is not None:
+                        inl = clo_map[0]
                 if inl is not None:
                     qs = self.facts.inline_paths(inl, self.depth)
                     if qs is not None:
-                        mapping = {("param", i + 1): a for i, a in enumerate(args)}
+                        mapping = clo_map[1] if clo_map is not None else {("param", i + 1): a for i, a in enumerate(args)}
                         for q in qs:
                             q2 = subst_path(q, mapping, bi, site=(fn.id, bi))
                             ev2 = list(events) + [("inlined", inl, args, bi)] + q2.events
@@ -386,6 +392,30 @@ class Walker:
             if fid and fid != self.fn.id and F.is_new_fn(fid):
                 return fid
         return None
+
+    def local_closure_call(self, t, args):
+        """(closure fn id, parameter mapping) when the call is Fn::call / FnMut::call_mut / FnOnce::call_once on a
+        closure aggregate built in this very body, else None"""
+        F = self.facts
+        path = t.get("fn") or ""
+        if F is None or path.split("::")[-1] not in ("call", "call_mut", "call_once") or "ops::Fn" not in path or len(args) != 2:
+            return None
+        c = strip_refs(args[0])
+        if not (isinstance(c, tuple) and c[0] == "agg" and c[1] == "closure"):
+            return None
+        cf = F.fns.get(c[2])
+        if cf is None or not cf.is_closure or cf.id == self.fn.id:
+            return None
+        tup = args[1]
+        if not (tup[0] == "agg" and tup[1] == "tuple"):
+            return None
+        mapping = {}
+        for i, cap in enumerate(cf.captures):
+            if i < len(c[3]):
+                mapping[("upvar", cap["var"], i)] = c[3][i]
+        for i, a in enumerate(tup[3]):
+            mapping[("param", i + 2)] = a
+        return cf.id, mapping
 
     def model_mem_fns(self, t, ce, env, fenv):
         """std::mem::swap / replace / take on plain locals update the def-use environment"""
